@@ -17,6 +17,12 @@ META['C18'] = {
     'technique': "property-based testing (rapid state machine + exhaustive small-scope enumeration) against a reference model",
 }
 
+LOAD_NOTE = "trusts the reference implementations in harness/loadeng (Kahn, merge, text/template rendering, expander), written from the documentation; file contents are restricted to YAML-inert quoting so that the comparison is about the loader, not about YAML"
+META['C07'] = {'engine': 'loadeng', 'level_text': "exhaustive enumeration of all digraphs up to 4 nodes plus rapid campaigns on larger plans against reference graph algorithms, and the launched set behind the fake commander; exploration", 'level_note': LOAD_NOTE, 'technique': "exhaustive small-scope enumeration + property-based testing (rapid) against a reference model"}
+META['C15'] = {'engine': 'loadeng', 'level_text': "rapid campaigns over generated file chains against a reference merge, plus the extends/explicit metamorphic relation; exploration", 'level_note': LOAD_NOTE, 'technique': "property-based testing (rapid): differential against a reference merge + metamorphic relation"}
+META['C16'] = {'engine': 'loadeng', 'level_text': "rapid campaigns over generated templated configurations: determinism across repeated loads, defaults, per-replica reference rendering; exploration", 'level_note': LOAD_NOTE, 'technique': "property-based testing (rapid): determinism + differential against reference rendering"}
+META['C17'] = {'engine': 'loadeng', 'level_text': "rapid campaigns: reference expander on loaded values under a controlled environment, and a precedence model on the environment handed to the commander; exploration", 'level_note': LOAD_NOTE + "; launch part uses the fake commander seam to read the exact environment", 'technique': "property-based testing (rapid): differential against a reference expander / precedence model"}
+
 NOT_APPLICABLE = {}
 
 ENGINES = [
@@ -24,4 +30,6 @@ ENGINES = [
      "kind_free_text": "rapid stateful generation driving app.ProjectRunner through a fake commander (build tag verif); trace oracles in harness/oracle"},
     {"name": "logbuf", "path": "harness/logbuf", "serves_properties": ['C18'],
      "kind_free_text": "rapid + exhaustive enumeration over pclog.ProcessLogBuffer and the websocket log stream"},
+    {"name": "loadeng", "path": "harness/loadeng", "serves_properties": ['C07', 'C15', 'C16', 'C17'],
+     "kind_free_text": "rapid + exhaustive enumeration over loader.Load / NewProjectRunner with reference implementations"},
 ]
